@@ -1,10 +1,14 @@
 #!/bin/sh
 # try_seed.sh <seed-name> <pid> [pid...] : apply seeded/<seed>/patch.diff to /repo, run the checks, undo.
+# The evidence files of the checks are saved before and put back afterwards: evidence/ must describe the unchanged tree.
 S=$1; shift
-git -C /repo apply /verif/seeded/$S/patch.diff || exit 2
+BK=$(mktemp -d /var/tmp/evidence_bk.XXXXXX)
+cp -a /verif/evidence/. $BK/ 2>/dev/null
+git -C /repo apply /verif/seeded/$S/patch.diff || { rm -rf $BK; exit 2; }
 for p in "$@"; do
   (cd /verif && timeout 1500 ./check $p --tier quick 2>&1 | grep -E "VIOLATION|KNOWN|-> " | sed "s/^/[$S] /")
 done
 git -C /repo checkout -- .
+cp -a $BK/. /verif/evidence/ 2>/dev/null; rm -rf $BK
 # restore generated files to the unchanged tree's
 (cd /verif && /venv/bin/python tools/gen_tables.py lean/H2/Gen/Tables.lean work/gen_summary.json && /venv/bin/python tools/py2lean.py lean/H2/Gen/Windows.lean >/dev/null)
